@@ -57,7 +57,9 @@ def gen(tier, rng):
     for w in words:
         for cut in range(len(w) + 1):
             for c in range(1, 256):
-                if not full and rng.random() > 0.25 and c not in (w[cut] if cut < len(w) else 0, 0x20, 0x0a, 0x23, 0x2f):
+                nxt = w[cut] if cut < len(w) else 0
+                flipped = nxt ^ 0x20 if bytes([nxt]).isalpha() else nxt
+                if not full and rng.random() > 0.25 and c not in (nxt, flipped, 0x20, 0x0a, 0x23, 0x2f, 0x09, 0x0d, 0x2d, 0x5f):
                     continue
                 t = tails[(i + c) % len(tails)]
                 cases.append(("n%d" % i, w[:cut] + bytes([c]) + t))
@@ -107,7 +109,7 @@ def run(tier, out, model_ok, proof):
     out.coverage.update({
         "evaluations": len(cases),
         "distinct_nontrivial": len(set(d for _, d in cases if expect(d) is not None)),
-        "rule": "words within one byte of every prefix of every keyword / response code (all 255 non-zero bytes at each cut%s), all 3-digit strings, case variants, x terminators; non-trivial = starts with a byte that can begin a keyword; each case: lexemes, error class/index and per-Next() configuration compared between scanner.Scanner and the extracted Coq model, and the implementation's result judged against a reference written from the property text" % ("" if tier == "thorough" else "; 25% sample in quick tier"),
+        "rule": "words within one byte of every prefix of every keyword / response code (all 255 non-zero bytes at each cut%s; the next byte of the word, its other letter case and the terminators always), all 3-digit strings, case variants, x terminators; non-trivial = starts with a byte that can begin a keyword; each case: lexemes, error class/index and per-Next() configuration compared between scanner.Scanner and the extracted Coq model, and the implementation's result judged against a reference written from the property text" % ("" if tier == "thorough" else "; 25% sample in quick tier"),
         "samples": [{"input": d.decode("latin1"), "impl": {"lex": results[c]["lex"], "end": list(results[c]["end"])}} for c, d in cases[:3] + cases[-2:]],
         "traces_validated_against_impl": len(cases) - len(mism) if model_ok else 0,
         "reference_kinds": kinds,
